@@ -149,6 +149,8 @@ func (o epochOp) String() string {
 		return fmt.Sprintf("recover(lost#%d)", o.Lost)
 	case "redistribute":
 		return fmt.Sprintf("redistribute(→%d,anchor=%v)", o.To, o.Anchor)
+	case "rekey":
+		return fmt.Sprintf("rekey(by-minimal-quorum#%d,anchor=%v)", o.Lost, o.Anchor)
 	}
 	return o.Kind
 }
@@ -161,6 +163,8 @@ func c06Structures() []Policy {
 		cnfPolicy([]int{0b001, 0b110}, []sharing.ID{1, 2, 3}),
 		thresholdPolicy(2, []sharing.ID{4, 9}),
 		gatePolicy(&gate{1, []any{&gate{2, []any{0, 1}}, &gate{2, []any{0, 2}}}}, []sharing.ID{1, 2, 3}),
+		// three clauses (MSP dimension 3) but qualified quorums of size 2
+		cnfPolicy([]int{0b0011, 0b1100, 0b0101}, []sharing.ID{1, 2, 3, 4}),
 	}
 }
 
@@ -213,6 +217,15 @@ func c06History[E algebra.PrimeGroupElement[E, S], S algebra.PrimeFieldElement[S
 				env.Reach("op-not-applicable: remaining holders unqualified")
 				return
 			}
+		case "rekey":
+			// the op.Lost-th minimal qualified set re-shares to the whole (same) structure: everybody
+			// else recovers
+			mq := minimalQualified(as, holders)
+			if op.Lost >= len(mq) {
+				env.Reach("op-not-applicable")
+				return
+			}
+			prevHolders = sortedIDs(mq[op.Lost])
 		case "redistribute":
 			nextPol = structs[op.To]
 			// a minimal qualified set of the current structure drives the step
@@ -234,7 +247,9 @@ func c06History[E algebra.PrimeGroupElement[E, S], S algebra.PrimeFieldElement[S
 		}
 		res, err := runRedistribute(env, tag, prevHolders, shards, nextAS, anchor, nil)
 		if err != nil {
-			env.Reach("refused: " + trunc(err.Error(), 80))
+			// prevHolders is a qualified set of the current structure by construction: the protocol
+			// must accept it
+			env.Check(pfx+"/a qualified set of previous holders is accepted", false, fmt.Sprintf("previous holders %s: %v", setName(prevHolders), err))
 			return
 		}
 		for id, e := range res.Errs {
@@ -309,6 +324,12 @@ func C06Cases(tier string, seed int64) []Case {
 			add(start, []epochOp{o})
 		}
 	}
+	for q := 0; q < 4; q++ {
+		add(5, []epochOp{{Kind: "rekey", Lost: q, Anchor: q%2 == 0}})
+		add(2, []epochOp{{Kind: "rekey", Lost: q}})
+	}
+	add(0, []epochOp{{Kind: "redistribute", To: 5, Anchor: true}, {Kind: "rekey", Lost: 1}})
+	add(0, []epochOp{{Kind: "redistribute", To: 5}, {Kind: "rekey", Lost: 2, Anchor: true}})
 	// histories of length 2 (quick: from structure 0) and 3 (thorough)
 	second := []epochOp{{Kind: "refresh"}, {Kind: "recover", Lost: 1}, {Kind: "redistribute", To: 0, Anchor: true}, {Kind: "redistribute", To: 2}}
 	for _, a := range single {
